@@ -20,7 +20,7 @@ CLAIMED = {
          "With 1-3 untrusted connections sending generated adversarial traffic (plain and in the extmsg envelope) next to an honest trusted peer: the node still converges to the trusted chain, every block of its chain and every block announced to handlers was announced by the trusted peer, no confirmation refers to another block, nothing is reported safe without a trusted sighting, no getdata goes to a connection before it proved chain membership and never for blocks, and no transaction reaches handlers without some verified untrusted connection.",
          E1_NOTE, "6 C12"),
  "C16": ("exploration", E2_TECH,
-         "For 1-8 concurrent calls with distinct keys and any service behaviour per key (answer, reject, answer twice, silence; before or after the caller's time-out; unsolicited responses) each call returns exactly its own response or RejectError(code, text), or ErrTimeout no earlier than the request time-out and within request + message time-out + 5 s; GetOutputs returns each outpoint's own value and script in order or an error.",
+         "For 1-8 concurrent calls with distinct keys and any service behaviour per key (answer, reject, answer twice, silence; before or after the caller's time-out; unsolicited responses) each call returns exactly its own response or RejectError(code, text), or ErrTimeout no earlier than the request time-out and within request + message time-out + 5 s; GetOutputs returns each outpoint's own value and script in order or an error; the same request key issued again after a call ended (answered, rejected or timed out) gets its own answer.",
          E2_NOTE, "6 C16"),
  "C17": ("exploration", E2_TECH,
          "For service streams with duplicated, future, old and repeated-after-reconnect ids, connection drops at any stream position, slow handlers and slow writes: ids reach each handler strictly consecutively from the declared id, never twice, both handlers in the same order, NextMessageID() = last + 1, content equals the service's message of that id, and with a service that resumes exactly from the declared id nothing is missed.",
@@ -29,7 +29,7 @@ CLAIMED = {
          "Over accept variants per connection (valid, long-term key, key for another hash, foreign signature, altered counts, replayed accept, none, reject; data sent after, ahead of or without the accept), both connection types, calls issued before/after accept, during disconnects and after reconnects, concurrent subscriptions, slow writes and drops: every Register verifies against the configured key; nothing but register/subscribe/ready is written before a connection's handshake completed; the client's bytes on every connection parse as whole messages; a call that returned nil was written after the handshake; after a forged accept no accept or data callback occurs and IsAccepted() is false.",
          E2_NOTE, "6 C18"),
  "C19": ("exploration", E1_TECH,
-         "With Stop requested at a tape-chosen instant of chain and transaction scenarios (while dialling, in the handshake, during sync, in sync, around the node's own reconnects, with slow handlers, untrusted connections, connection faults): Stop and Run return within 120 simulated seconds, the stored chain / unconfirmed set / peers equal the in-memory ones, no callback follows Stop's return, no node task survives, the first header request of every connection starts at the stored tip and no block is announced twice without a reorganisation.",
+         "With Stop requested at a tape-chosen instant of chain and transaction scenarios (while dialling, in the handshake, during sync, in sync, around the node's own reconnects, with slow handlers, untrusted connections, connection faults): Stop and Run return within 120 simulated seconds, the stored chain / unconfirmed set / peers equal the in-memory ones, no callback follows Stop's return, no node task survives, the first header request of every connection starts at the stored tip and no block is announced twice without a reorganisation; also with outages of the external output service.",
          E1_NOTE, "6 C19"),
  "C01": ("exploration", E1_TECH,
          "For every explored block tree, best-chain change script (extend, reorg incl. below the start block and among undownloaded blocks, flip-flop), schedule and fault mix (duplicated / reordered / stalled peer messages, connection close / reset / bounded black-hole, dial failures, clean restarts) the node's tip and height-to-hash answers from the start block up equal the peer's best chain within 45 simulated minutes of the last change, and HandleInSync is only delivered while every block announced in fully read headers messages is held.",
@@ -54,7 +54,7 @@ CLAIMED = {
          "With a clean Stop and a new node on the same simulated disk inserted at a quiescent point of explored histories: no tracked transaction is delivered as new again, a later confirmation is an update with proof, safe is not repeated and never follows unsafe, a vouched conflict-free transaction becomes safe at first-seen + delay (millisecond first-seen time and trusted flag survive), and GetTx returns the bytes that were sent to handlers for every delivered txid with the external tx service disabled. The unconfirmed file round-trips 0..8 entries with all flag combinations and millisecond times.",
          E1_NOTE, "6 C11"),
  "C14": ("exploration", E1_TECH,
-         "From the getdata messages seen on all simulated connections (with ping storms on every connection while blocks are fetched and processed): no second request for a txid inside the three-second window, none after its body arrived and none from stale tracker state after a block containing it was processed; when the asked peer stays silent and another connection that announced the txid inside the window shows activity after it, that connection is asked within 5 s.",
+         "From the getdata messages seen on all simulated connections (with ping storms on every connection while blocks are fetched and processed): no second request for a txid inside the three-second window, none after its body arrived and none from stale tracker state after a block containing it was processed; when the asked peer stays silent and another connection that announced the txid inside the window shows activity after it, that connection is asked within 5 s. Scenarios include up to 140 transactions, bursts of more than 100 unanswered announcements and ping storms.",
          E1_NOTE + " Requests caused by a fresh announcement after the transaction was confirmed are not judged (the node keeps no record of confirmed irrelevant transactions).", "6 C14, App. C"),
  "C08": ("exploration",
          "deterministic simulation: reference-model comparison of the real subscription filter over seeded operation histories and grammar-generated scripts; concurrent callers under the seeded baton scheduler with the recorded invoke/return history checked for linearizability (porcupine); and the whole-node transaction scenario with generated scripts and subscription histories",
@@ -62,15 +62,15 @@ CLAIMED = {
          E1_NOTE + " Whether OP_0, OP_1..16, OP_1NEGATE and empty pushes count as data pushes is not judged (the universe avoids their hashes). The contract-action expectation is by construction of the generated output (the specification library builds it), not an independent parser.", "6 C08"),
  "C15": ("exploration",
          "deterministic simulation at the stream seam: generated message sequences of all 37 wire types written by the real serializers and read back through a simulated reader that fragments at tape-chosen points; every strict prefix decoded; stored transaction records through the simulated disk",
-         "Every generated message of every type decodes to a semantically equal value of the same type consuming exactly its own bytes regardless of fragmentation and of what follows it in the stream; every strict prefix of an encoding fails with an error (no panic, no success); type code, name and payload type are in bijection; stored transaction records survive save/fetch on the simulated disk and reject every strict prefix.",
-         "Sampling over generated field values. Transport is a simulated fragmenting reader; no scheduler is involved (single-threaded codec).", "6 C15"),
+         "Every generated message of every type decodes to a semantically equal value of the same type consuming exactly its own bytes regardless of fragmentation and of what follows it in the stream; every strict prefix of an encoding fails with an error (no panic, no success); type code, name and payload type are in bijection; stored transaction records survive save/fetch on the simulated disk and reject every strict prefix. Through the real client: every numbered message a scripted service writes over fragmenting and coalescing links reaches the handlers once, intact and in order, and the bytes the client writes under concurrent direct writers parse as whole messages.",
+         "Sampling over generated field values. The codec sub-checks use a simulated fragmenting reader and no scheduler; the two whole-client sub-checks reuse the C17 and C18 scenarios judged for framing clauses only.", "6 C15"),
  "C20": ("fault_enumeration",
          "fault injection at the byte-stream and stored-record seams: for valid encodings of every client message type and every stored record, hostile count values are planted at every byte offset, plus every truncation, seeded bit flips and random tails; each case decoded by the real decoders in a child process that reports panics and bytes allocated",
-         "For every enumerated hostile encoding the decoders of internal/... and pkg/client return (value or error) without panicking and allocate at most 16 MiB + 256 x input length; a child process that dies is a violation. Regions decoded by the tokenized/pkg dependency (wire.MsgTx, bsor) are sampled thinly and their failures are listed as known findings.",
+         "For every enumerated hostile encoding the decoders of internal/... and pkg/client return (value or error) without panicking and allocate at most 16 MiB + 256 x input length; a child process that dies or a decode that does not return within 10 s is a violation; every repository object is used twice (a failed decode must leave it usable). Regions decoded by the tokenized/pkg dependency (wire.MsgTx, bsor) are sampled thinly and their failures are listed as known findings.",
          "Enumeration is over offsets x a fixed set of hostile values for one valid encoding per type and run; other field values are sampled. The allocation bound is the harness's (the statement says 'bounded by input size').", "6 C20"),
  "C09": ("exploration",
-         "deterministic simulation at the storage seam: reference-model comparison of the real block repository over seeded operation sequences with both delete-missing semantics and injected per-operation disk errors; exhaustive revert-boundary sweep",
-         "After every operation of every explored add/revert/save/load/query sequence the real BlockRepository (and Node.GetHeaders) answers exactly like a slice-of-headers model; a revert that fails through an injected disk error leaves all answers unchanged; all revert targets within 2 of each 1000-header boundary and of the tip are enumerated for store sizes around the boundaries, saved and unsaved, under both back-end behaviours.",
+         "deterministic simulation at the storage seam: reference-model comparison of the real block repository over seeded operation sequences (Add and AddNext paths) with both delete-missing semantics and injected per-operation disk errors; exhaustive revert-boundary sweep; single-failure enumeration over every mutation of a history; concurrent callers under the seeded baton scheduler with the history checked by porcupine",
+         "After every operation of every explored add/revert/save/load/query sequence the real BlockRepository (and Node.GetHeaders) answers exactly like a slice-of-headers model; a revert that fails through an injected disk error leaves all answers unchanged; all revert targets within 2 of each 1000-header boundary and of the tip are enumerated for store sizes around the boundaries, saved and unsaved, under both back-end behaviours; with any single write or remove (and sampled reads) of a history failing once, no answer changes through the failed step and the store recovers; concurrent Add / Revert / Header(-1) / Hash / Height histories are linearizable (porcupine).",
          "Sampling beyond the enumerated sweep; the storage back end is the simulated disk (individual operations atomic).",
          "6 C09"),
  "C13": ("exploration",
